@@ -100,7 +100,8 @@ def renderStream (st : Strm) : String :=
     s!"{if st.wdone then "B" else "A"}{st.id}:{fl}:p{st.pd}.{st.pu}:r{st.nread}"
   | some t =>
     let stc := match t.status with | some c => toString c | none => "-"
-    let term := match t.err with | none => s!"eof/{stc}" | some c => s!"{c}/{stc}"
+    let hexs (d : Bytes) : String := if d.isEmpty then "-" else String.ofList (d.flatMap fun x => [hexChar (x.toNat / 16), hexChar (x.toNat % 16)])
+    let term := match t.err with | none => s!"eof/{stc}/m{hexs st.smsg}" | some c => s!"{c}/{stc}"
     s!"D{st.id}:{fl}:{term}:r{st.nread}"
 
 def renderRpc (s : State) (r : Rpc) : String :=
